@@ -47,6 +47,10 @@ func wiringOfCall(c *Check, fn *ssa.Function, callee string) *callWiring {
 		}
 	})
 	if call == nil {
+		// the constructor may be called by a small helper that fn calls (opts.newMatcher())
+		if w := wiringThroughHelper(c, fn, callee); w != nil {
+			return w
+		}
 		anchorFail("%s: no call to %s", FuncName(fn), short(callee))
 	}
 	target := call.Call.StaticCallee()
@@ -57,6 +61,70 @@ func wiringOfCall(c *Check, fn *ssa.Function, callee string) *callWiring {
 		name := sig.Params().At(i).Name()
 		w.params = append(w.params, name)
 		w.srcs[name] = sl.sources(call.Call.Args[i])
+	}
+	return w
+}
+
+// wiringThroughHelper: fn calls a module helper g that contains the single call to callee; the
+// helper's parameters (and fields of its struct parameters) are bound to fn's arguments.
+func wiringThroughHelper(c *Check, fn *ssa.Function, callee string) *callWiring {
+	var site *ssa.Call
+	var inner *callWiring
+	allInstrs(fn, func(in ssa.Instruction) {
+		x, ok := in.(*ssa.Call)
+		if !ok || site != nil {
+			return
+		}
+		g := x.Call.StaticCallee()
+		if g == nil || g.Blocks == nil || !ModuleFunc(g) || g == fn {
+			return
+		}
+		n := 0
+		allInstrs(g, func(in2 ssa.Instruction) {
+			if y, ok := in2.(*ssa.Call); ok && calleeName(y.Common()) == callee {
+				n++
+			}
+		})
+		if n == 1 {
+			site = x
+			inner = wiringOfCall(c, g, callee)
+		}
+	})
+	if site == nil {
+		return nil
+	}
+	g := site.Call.StaticCallee()
+	sl := newSlicer(c.P, fn)
+	w := &callWiring{call: site, params: inner.params, srcs: map[string][]srcInfo{}}
+	for _, par := range inner.params {
+		for _, si := range inner.srcs[par] {
+			switch si.Kind {
+			case "param", "paramfield":
+				idx := -1
+				for i, p := range g.Params {
+					if p == si.Param {
+						idx = i
+					}
+				}
+				if idx < 0 || idx >= len(site.Call.Args) {
+					w.srcs[par] = append(w.srcs[par], si)
+					continue
+				}
+				arg := site.Call.Args[idx]
+				var ss []srcInfo
+				if si.Kind == "param" {
+					ss = sl.sources(arg)
+				} else {
+					ss = sl.fieldOfValue(arg, si.Field)
+				}
+				for _, x := range ss {
+					x.Mult *= si.Mult
+					w.srcs[par] = append(w.srcs[par], x)
+				}
+			default:
+				w.srcs[par] = append(w.srcs[par], si)
+			}
+		}
 	}
 	return w
 }
@@ -73,6 +141,18 @@ func tokenSources(ss []srcInfo) (names []string, mults map[string]int64) {
 	}
 	sort.Strings(names)
 	return
+}
+
+// impureSources: everything that feeds a value besides struct fields (constants, calls, arithmetic):
+// a TOML setting that must reach its parameter unchanged has none.
+func impureSources(ss []srcInfo) []string {
+	var out []string
+	for _, s := range ss {
+		if s.Kind != "field" {
+			out = append(out, s.String())
+		}
+	}
+	return out
 }
 
 func constSources(ss []srcInfo) []constant.Value {
@@ -441,7 +521,66 @@ func checkUpdateFlag(c *Check, fn *ssa.Function, label string) {
 		}
 	}
 	if flag == nil {
-		c.Hold(key, c.At(call), "the filter is rebuilt unconditionally")
+		// no single flag: either the filter is rebuilt unconditionally, or the decision is spread over
+		// several tests (e.g. `a != cur.A || b != cur.B || …`): then every one of the six options must take part
+		sl0 := newSlicer(c.P, fn)
+		compared := map[string]bool{}
+		conditional, unknown := false, ""
+		for _, b := range fn.Blocks {
+			ifi, ok := b.Instrs[len(b.Instrs)-1].(*ssa.If)
+			if !ok || !b.Dominates(call.Block()) && !reachable(b, nil, nil)[call.Block()] {
+				continue
+			}
+			if _, _, isErr := errTest(ifi.Cond); isErr {
+				continue
+			}
+			r0 := reachable(b.Succs[0], nil, nil)[call.Block()] || b.Succs[0] == call.Block()
+			r1 := reachable(b.Succs[1], nil, nil)[call.Block()] || b.Succs[1] == call.Block()
+			if r0 == r1 {
+				continue // does not decide whether the call happens
+			}
+			if innermostLoop(loopsOf(fn), b) != nil {
+				continue // option loop control
+			}
+			conditional = true
+			cnd, _ := negStrip(ifi.Cond)
+			bo, ok := cnd.(*ssa.BinOp)
+			if !ok || (bo.Op != token.NEQ && bo.Op != token.EQL) {
+				unknown = c.P.InstrPos(ifi)
+				continue
+			}
+			opt := ""
+			for _, side := range []ssa.Value{bo.X, bo.Y} {
+				names, _ := tokenSources(sl0.sources(side))
+				for _, n := range names {
+					if strings.HasPrefix(n, "str:") {
+						opt = strings.TrimPrefix(n, "str:")
+					}
+				}
+			}
+			if opt == "" {
+				unknown = c.P.InstrPos(ifi)
+				continue
+			}
+			compared[opt] = true
+		}
+		if !conditional {
+			c.Hold(key, c.At(call), "the filter is rebuilt unconditionally")
+			return
+		}
+		var missing []string
+		for _, o := range matcherOrder {
+			if !compared[o] {
+				missing = append(missing, o)
+			}
+		}
+		why := ""
+		if unknown != "" {
+			why = "whether the new filter is built depends on a condition that is not a comparison of a filter option (" + unknown + ")"
+		} else if len(missing) > 0 {
+			why = "the new filter is only built when one of the compared options changed, and " + strings.Join(missing, ", ") + " is not compared: giving only that option is acknowledged but ignored"
+		}
+		c.Judge(why == "", key, c.At(call), "rebuilt when any of the six options differs from the filter in force", why+" — the command is acknowledged but the old filter stays in force")
 		return
 	}
 	g := fn
@@ -566,41 +705,45 @@ func fieldStores(c *Check, fn *ssa.Function, typeName string) map[string][]srcIn
 	return out
 }
 
-// checkRouteOptsOrder: the six results of readRouteOpts are passed to matcher.New in the same order.
+// checkRouteOptsOrder: in a command reader that takes its filter options from readRouteOpts, every
+// matcher.New parameter is fed by the equally named option token only — however the options travel
+// (six positional results, a struct, a helper that builds the matcher).
 func checkRouteOptsOrder(c *Check, fn *ssa.Function, tok map[string]string) {
-	var mcall *ssa.Call
-	allInstrs(fn, func(in ssa.Instruction) {
-		if call, ok := in.(*ssa.Call); ok && calleeName(call.Common()) == modPath+"/matcher.New" {
-			mcall = call
-		}
-	})
-	if mcall == nil {
-		anchorFail("%s: no matcher.New call", FuncName(fn))
-	}
-	okOrder := true
-	for i := 0; i < 6; i++ {
-		ex, ok := mcall.Call.Args[i].(*ssa.Extract)
-		if !ok || ex.Index != i {
-			okOrder = false
-			continue
-		}
-		if call, ok := ex.Tuple.(*ssa.Call); !ok || calleeName(call.Common()) != modPath+"/imperatives.readRouteOpts" {
-			okOrder = false
+	w := wiringOfCall(c, fn, modPath+"/matcher.New")
+	bad := ""
+	for i, opt := range matcherOrder {
+		names, _ := tokenSources(w.srcs[w.params[i]])
+		if !(len(names) == 1 && names[0] == tok[opt]) {
+			bad = fmt.Sprintf("matcher option %s is fed by option tokens %v instead of %s", opt, names, tok[opt])
 		}
 	}
-	c.Judge(okOrder, FuncName(fn)+" readRouteOpts results → matcher.New in order", c.At(mcall), "prefix, notPrefix, sub, notSub, regex, notRegex passed positionally", "the route filter options returned by readRouteOpts are passed to matcher.New in a different order: filter options are swapped")
+	c.Judge(bad == "", FuncName(fn)+" readRouteOpts results → matcher.New in order", c.At(w.call), "prefix, notPrefix, sub, notSub, regex, notRegex each reach the equally named matcher option", "the route filter options returned by readRouteOpts reach matcher.New under a different name: filter options are swapped or dropped — "+bad)
 }
 
-// checkReadRouteOpts: result i of readRouteOpts is assigned under the token of matcherOrder[i].
+// checkReadRouteOpts: each filter option that readRouteOpts hands back is assigned under its own token.
 func checkReadRouteOpts(c *Check, tok map[string]string) {
 	fn := c.P.Func("imperatives", "", "readRouteOpts")
 	sl := newSlicer(c.P, fn)
-	// named results are spilled to allocs or phis; inspect normal returns with 7 results
+	res := fn.Signature.Results()
 	for i, opt := range matcherOrder {
 		var all []srcInfo
 		allInstrs(fn, func(in ssa.Instruction) {
-			if r, ok := in.(*ssa.Return); ok && len(r.Results) == 7 {
+			r, ok := in.(*ssa.Return)
+			if !ok {
+				return
+			}
+			switch {
+			case res.Len() == 7 && len(r.Results) == 7:
 				all = append(all, sl.sources(r.Results[i])...)
+			case res.Len() >= 1:
+				// the options travel in a struct: the field named like the option
+				if st, ok := res.At(0).Type().Underlying().(*types.Struct); ok && len(r.Results) >= 1 {
+					for fi := 0; fi < st.NumFields(); fi++ {
+						if strings.EqualFold(st.Field(fi).Name(), opt) {
+							all = append(all, sl.structFieldSources(r.Results[0], fi)...)
+						}
+					}
+				}
 			}
 		})
 		names, _ := tokenSources(all)
@@ -689,7 +832,8 @@ func c20r2(c *Check) {
 	w := wiringOfCall(c, ia, modPath+"/aggregator.New")
 	for par, fld := range map[string]string{"fun": "Function", "outFmt": "Format", "cache": "Cache", "interval": "Interval", "wait": "Wait", "dropRaw": "DropRaw"} {
 		names, mults := fieldSources(w.srcs[par])
-		c.Judge(len(names) == 1 && names[0] == fld && mults[fld] == 1, "cfg.InitAggregation "+fld+" → aggregator.New("+par+")", c.At(w.call), "TOML setting reaches its parameter", fmt.Sprintf("parameter %s is fed by settings %v (factors %v) instead of %s", par, names, mults, fld))
+		extra := impureSources(w.srcs[par])
+		c.Judge(len(names) == 1 && names[0] == fld && mults[fld] == 1 && len(extra) == 0, "cfg.InitAggregation "+fld+" → aggregator.New("+par+")", c.At(w.call), "TOML setting reaches its parameter unchanged", fmt.Sprintf("parameter %s is fed by settings %v (factors %v) and by %v instead of %s alone", par, names, mults, extra, fld))
 	}
 	checkSubWins(c, ia, "cfg.InitAggregation")
 	// blacklist = ['<method> <pattern>', ...]
@@ -702,33 +846,7 @@ func c20r2(c *Check) {
 	} else {
 		c.Undecided("docs/config.md blacklist table", "docs/config.md", err.Error())
 	}
-	// [[rewriter]]
-	ir := c.P.Func("cfg", "", "InitRewrite")
-	wr := wiringOfCall(c, ir, modPath+"/rewriter.New")
-	for par, fld := range map[string]string{"old": "Old", "new": "New", "not": "Not", "max": "Max"} {
-		names, _ := fieldSources(wr.srcs[par])
-		c.Judge(len(names) == 1 && names[0] == fld, "cfg.InitRewrite "+fld+" → rewriter.New("+par+")", c.At(wr.call), "TOML setting reaches its parameter", fmt.Sprintf("parameter %s is fed by settings %v instead of %s", par, names, fld))
-	}
-	rn := c.P.Func("rewriter", "", "New")
-	gotR := map[string]string{}
-	allInstrs(rn, func(in ssa.Instruction) {
-		if st, ok := in.(*ssa.Store); ok {
-			if fa, ok := st.Addr.(*ssa.FieldAddr); ok {
-				if p, ok := st.Val.(*ssa.Parameter); ok {
-					gotR[fieldOfAddr(fa).Name()] = p.Name()
-				}
-			}
-		}
-	})
-	for fld, par := range map[string]string{"Old": "old", "New": "new", "Not": "not", "Max": "max"} {
-		c.Judge(gotR[fld] == par, "rewriter.New "+par+" → RW."+fld, c.AtFn(rn), "parameter stored in its field", fmt.Sprintf("RW.%s is filled from parameter %q", fld, gotR[fld]))
-	}
-	// command: addRewriter old new max
-	rar := c.P.Func("imperatives", "", "readAddRewriter")
-	wrr := wiringOfCall(c, rar, modPath+"/rewriter.New")
-	d := wrr.call.Call.Args[0] != wrr.call.Call.Args[1]
-	notC, _ := constString(wrr.call.Call.Args[2])
-	c.Judge(d && notC == "", "imperatives.readAddRewriter old,new distinct; not=\"\"", c.At(wrr.call), "old and new from different tokens", "addRewriter passes the same token as old and new")
+	checkRewriterWiring(c)
 	// [[route]]
 	iro := c.P.Func("cfg", "", "InitRoutes")
 	checkMatcherArgs(c, iro, "cfg.InitRoutes", false, nil, toml)
@@ -1220,4 +1338,37 @@ func c20r4(c *Check) {
 		}
 	})
 	c.Judge(okAdv, "cmd expandConfig advances one byte per copied byte", c.AtFn(ec), "WriteByte is paired with i+1", "a single byte is copied but the scan position advances by a different amount: input bytes are skipped or duplicated")
+}
+
+// checkRewriterWiring: the four rewriter settings reach rewriter.New unchanged from the TOML section
+// and from the addRewriter command, and New stores them in the equally named fields.
+func checkRewriterWiring(c *Check) {
+	// [[rewriter]]
+	ir := c.P.Func("cfg", "", "InitRewrite")
+	wr := wiringOfCall(c, ir, modPath+"/rewriter.New")
+	for par, fld := range map[string]string{"old": "Old", "new": "New", "not": "Not", "max": "Max"} {
+		names, _ := fieldSources(wr.srcs[par])
+		extra := impureSources(wr.srcs[par])
+		c.Judge(len(names) == 1 && names[0] == fld && len(extra) == 0, "cfg.InitRewrite "+fld+" → rewriter.New("+par+")", c.At(wr.call), "TOML setting reaches its parameter unchanged", fmt.Sprintf("parameter %s is fed by settings %v and also by %v instead of %s alone: some configured value is silently replaced", par, names, extra, fld))
+	}
+	rn := c.P.Func("rewriter", "", "New")
+	gotR := map[string]string{}
+	allInstrs(rn, func(in ssa.Instruction) {
+		if st, ok := in.(*ssa.Store); ok {
+			if fa, ok := st.Addr.(*ssa.FieldAddr); ok {
+				if p, ok := st.Val.(*ssa.Parameter); ok {
+					gotR[fieldOfAddr(fa).Name()] = p.Name()
+				}
+			}
+		}
+	})
+	for fld, par := range map[string]string{"Old": "old", "New": "new", "Not": "not", "Max": "max"} {
+		c.Judge(gotR[fld] == par, "rewriter.New "+par+" → RW."+fld, c.AtFn(rn), "parameter stored in its field", fmt.Sprintf("RW.%s is filled from parameter %q", fld, gotR[fld]))
+	}
+	// command: addRewriter old new max
+	rar := c.P.Func("imperatives", "", "readAddRewriter")
+	wrr := wiringOfCall(c, rar, modPath+"/rewriter.New")
+	d := wrr.call.Call.Args[0] != wrr.call.Call.Args[1]
+	notC, _ := constString(wrr.call.Call.Args[2])
+	c.Judge(d && notC == "", "imperatives.readAddRewriter old,new distinct; not=\"\"", c.At(wrr.call), "old and new from different tokens", "addRewriter passes the same token as old and new")
 }
